@@ -310,6 +310,25 @@ class CaseRunner:
     MUTATORS = {"new_unit", "derive_unit_from", "register_converter", "remove_converter", "update", "register_currency",
                 "register_item", "__init__", "__enter__", "__exit__", "__init_subclass__", "__set_name__"}
 
+    def _declares(self, fi: FuncInfo, cg) -> bool:
+        """Does the function (through what it calls) enter something into a directory of units / types?  Then
+        calling it twice is a second declaration, not a repetition."""
+        if getattr(self, "_declaring", None) is None:
+            from .anchors import symbol_directories
+            try:
+                dirs = set(symbol_directories(self.prog))
+            except AnalysisError:
+                dirs = set()
+            decl = set()
+            for w in self._writes:
+                if w.fi is None:
+                    continue
+                if (w.state in dirs and w.kind in ("item-store", "mutcall")) or w.op == "register_item":
+                    decl.add(w.fi.qualname)
+            self._declaring = decl
+        reach = cg.reachable_from([fi.qualname]) | {fi.qualname}
+        return bool(reach & self._declaring)
+
     def replayable(self, fi: FuncInfo) -> bool:
         """Does the function (or anything it reaches) keep something from one call to the next - a memoising
         decorator, or a store outside construction time?  Then its cases are also evaluated as repeated calls."""
@@ -329,7 +348,7 @@ class CaseRunner:
             cg = self._cg
             metas = ("QuantityMeta", "MoneyMeta", "ClassWithDefinitionMeta")
             if fi.name in self.MUTATORS or (fi.cls is not None and fi.cls.name in metas and fi.name in ("__new__", "__call__")) \
-                    or fi.qualname not in cg.funcs or fi.name.startswith("_make"):
+                    or fi.qualname not in cg.funcs or self._declares(fi, cg):
                 ok = False
             else:
                 # (operators are dispatched dynamically, so "what it reaches" is the whole package: any function
